@@ -29,6 +29,12 @@ impl Out {
         self.ops.push(l.clone());
         self.real.push(l);
     }
+    /// Record (on disk, at once) the request that is about to be executed IN THIS PROCESS: if the
+    /// code under test aborts the process (allocation failure, stack overflow), the check still
+    /// has the failing input.
+    pub fn about_to(&self, op: &str) {
+        if let Ok(p) = std::env::var("CVH_JOURNAL") { let _ = std::fs::write(p, op); }
+    }
     pub fn count(&mut self, key: &str) {
         *self.stats.entry(key.to_string()).or_insert(0) += 1;
     }
